@@ -34,6 +34,8 @@ func main() {
 		os.Exit(vcodec.RobustMain(os.Args[2:]))
 	case "wire":
 		os.Exit(vcodec.WireMain(os.Args[2:]))
+	case "validate":
+		os.Exit(vcodec.ValidateMain(os.Args[2:]))
 	case "values":
 		os.Exit(vcodec.ValuesMain(os.Args[2:]))
 	case "schedule":
